@@ -54,6 +54,8 @@ type World struct {
 	Targets  []*fakemilvus.Server
 	Src      *Source
 	ownEtcd  bool
+	// EtcdEndpoint is the etcd every component connects to (the embedded one, or a supervisor's in attach mode)
+	EtcdEndpoint string
 }
 
 type WorldOptions struct {
@@ -78,6 +80,7 @@ func NewWorld(o WorldOptions) (*World, error) {
 		return nil, err
 	}
 	w.ownEtcd = true
+	w.EtcdEndpoint = w.Etcd.Endpoint
 	if o.FileBroker {
 		w.Broker = memq.NewFileBroker(filepath.Join(o.Dir, "mq"))
 	} else {
@@ -98,6 +101,14 @@ func NewWorld(o WorldOptions) (*World, error) {
 		return nil, err
 	}
 	return w, nil
+}
+
+// Attach builds the CDC-side view of a world that lives in another (supervisor) process: etcd by endpoint, the
+// source's physical channels through the file broker directory. It has no upstream, no downstream servers.
+func Attach(etcdEndpoint, mqDir, metaRoot string) *World {
+	InitProcess()
+	w := &World{SrcRoot: "by-dev", MetaRoot: metaRoot, EtcdEndpoint: etcdEndpoint, Broker: memq.NewFileBroker(mqDir)}
+	return w
 }
 
 func (w *World) Close() {
@@ -142,7 +153,7 @@ type CDC struct {
 }
 
 func (w *World) ServerConfig(o CDCOptions) *server.CDCServerConfig {
-	ep := w.Etcd.Endpoint
+	ep := w.EtcdEndpoint
 	if o.EtcdEndpoint != "" {
 		ep = o.EtcdEndpoint
 	}
